@@ -10,12 +10,12 @@ fn valid_arg() -> TwoFloat {
 }
 
 //@ id=C14 tier=quick to=1800 cfg=std exh=1 stub=1 unwind=16 stubs="&TwoFloat*&TwoFloat, &TwoFloat+&TwoFloat, &TwoFloat+&f64, &f64/&TwoFloat -> havoc (values feed no panic site); real: argument reduction round(2hi), self - y/2, round(128 z.hi), table indexing, exp_half" desc="exp never panics for ANY valid argument: assert!(|z.hi| <= 0.25), assert!(|n| <= 32), assert!(n < 1440), all table indices, unwrap in polynomial!"
-#[cfg_attr(kani, kani::proof)]
-#[cfg_attr(kani, kani::unwind(16))]
-#[cfg_attr(kani, kani::stub(<&twofloat::TwoFloat as core::ops::Mul<&twofloat::TwoFloat>>::mul, crate::uf::havoc_tt))]
-#[cfg_attr(kani, kani::stub(<&twofloat::TwoFloat as core::ops::Add<&twofloat::TwoFloat>>::add, crate::uf::havoc_tt))]
-#[cfg_attr(kani, kani::stub(<&twofloat::TwoFloat as core::ops::Add<&f64>>::add, crate::uf::havoc_tf64))]
-#[cfg_attr(kani, kani::stub(<&f64 as core::ops::Div<&twofloat::TwoFloat>>::div, crate::uf::havoc_f64t))]
+#[cfg_attr(all(kani, feature = "stubs"), kani::proof)]
+#[cfg_attr(all(kani, feature = "stubs"), kani::unwind(16))]
+#[cfg_attr(all(kani, feature = "stubs"), kani::stub(<&twofloat::TwoFloat as core::ops::Mul<&twofloat::TwoFloat>>::mul, crate::uf::havoc_tt))]
+#[cfg_attr(all(kani, feature = "stubs"), kani::stub(<&twofloat::TwoFloat as core::ops::Add<&twofloat::TwoFloat>>::add, crate::uf::havoc_tt))]
+#[cfg_attr(all(kani, feature = "stubs"), kani::stub(<&twofloat::TwoFloat as core::ops::Add<&f64>>::add, crate::uf::havoc_tf64))]
+#[cfg_attr(all(kani, feature = "stubs"), kani::stub(<&f64 as core::ops::Div<&twofloat::TwoFloat>>::div, crate::uf::havoc_f64t))]
 pub fn c14_exp_total() {
     let x = valid_arg();
     if crate::gen_cells::known("c14_exp_quarter_assert") {
@@ -29,13 +29,13 @@ pub fn c14_exp_total() {
 }
 
 //@ id=C14 tier=quick to=1800 cfg=std exh=1 stub=1 unwind=16 stubs="DW operator impls (Mul, Add, Sub of TwoFloat/TwoFloat, TwoFloat/f64 forms, TwoFloat/f64 Div) -> havoc; real: range tests, round(hi), k as i32, mul_pow2 loop and bit construction" desc="exp2 never panics for ANY valid argument"
-#[cfg_attr(kani, kani::proof)]
-#[cfg_attr(kani, kani::unwind(16))]
-#[cfg_attr(kani, kani::stub(<&twofloat::TwoFloat as core::ops::Mul<&twofloat::TwoFloat>>::mul, crate::uf::havoc_tt))]
-#[cfg_attr(kani, kani::stub(<&twofloat::TwoFloat as core::ops::Add<&twofloat::TwoFloat>>::add, crate::uf::havoc_tt))]
-#[cfg_attr(kani, kani::stub(<&twofloat::TwoFloat as core::ops::Add<&f64>>::add, crate::uf::havoc_tf64))]
-#[cfg_attr(kani, kani::stub(<&twofloat::TwoFloat as core::ops::Sub<&f64>>::sub, crate::uf::havoc_tf64))]
-#[cfg_attr(kani, kani::stub(<&twofloat::TwoFloat as core::ops::Div<&f64>>::div, crate::uf::havoc_tf64))]
+#[cfg_attr(all(kani, feature = "stubs"), kani::proof)]
+#[cfg_attr(all(kani, feature = "stubs"), kani::unwind(16))]
+#[cfg_attr(all(kani, feature = "stubs"), kani::stub(<&twofloat::TwoFloat as core::ops::Mul<&twofloat::TwoFloat>>::mul, crate::uf::havoc_tt))]
+#[cfg_attr(all(kani, feature = "stubs"), kani::stub(<&twofloat::TwoFloat as core::ops::Add<&twofloat::TwoFloat>>::add, crate::uf::havoc_tt))]
+#[cfg_attr(all(kani, feature = "stubs"), kani::stub(<&twofloat::TwoFloat as core::ops::Add<&f64>>::add, crate::uf::havoc_tf64))]
+#[cfg_attr(all(kani, feature = "stubs"), kani::stub(<&twofloat::TwoFloat as core::ops::Sub<&f64>>::sub, crate::uf::havoc_tf64))]
+#[cfg_attr(all(kani, feature = "stubs"), kani::stub(<&twofloat::TwoFloat as core::ops::Div<&f64>>::div, crate::uf::havoc_tf64))]
 pub fn c14_exp2_total() {
     let x = valid_arg();
     let _ = x.exp2();
@@ -43,13 +43,13 @@ pub fn c14_exp2_total() {
 }
 
 //@ id=C14 tier=quick to=1800 cfg=std exh=1 stub=1 unwind=16 stubs="TwoFloat::exp -> havoc (its totality is c14_exp_total; exp_m1 passes its own valid argument); DW Mul/Add/Sub -> havoc" desc="exp_m1 never panics for ANY valid argument (modulo exp)"
-#[cfg_attr(kani, kani::proof)]
-#[cfg_attr(kani, kani::unwind(16))]
-#[cfg_attr(kani, kani::stub(twofloat::TwoFloat::exp, crate::uf::havoc_unary))]
-#[cfg_attr(kani, kani::stub(<&twofloat::TwoFloat as core::ops::Mul<&twofloat::TwoFloat>>::mul, crate::uf::havoc_tt))]
-#[cfg_attr(kani, kani::stub(<&twofloat::TwoFloat as core::ops::Add<&twofloat::TwoFloat>>::add, crate::uf::havoc_tt))]
-#[cfg_attr(kani, kani::stub(<&twofloat::TwoFloat as core::ops::Add<&f64>>::add, crate::uf::havoc_tf64))]
-#[cfg_attr(kani, kani::stub(<&twofloat::TwoFloat as core::ops::Sub<&f64>>::sub, crate::uf::havoc_tf64))]
+#[cfg_attr(all(kani, feature = "stubs"), kani::proof)]
+#[cfg_attr(all(kani, feature = "stubs"), kani::unwind(16))]
+#[cfg_attr(all(kani, feature = "stubs"), kani::stub(twofloat::TwoFloat::exp, crate::uf::havoc_unary))]
+#[cfg_attr(all(kani, feature = "stubs"), kani::stub(<&twofloat::TwoFloat as core::ops::Mul<&twofloat::TwoFloat>>::mul, crate::uf::havoc_tt))]
+#[cfg_attr(all(kani, feature = "stubs"), kani::stub(<&twofloat::TwoFloat as core::ops::Add<&twofloat::TwoFloat>>::add, crate::uf::havoc_tt))]
+#[cfg_attr(all(kani, feature = "stubs"), kani::stub(<&twofloat::TwoFloat as core::ops::Add<&f64>>::add, crate::uf::havoc_tf64))]
+#[cfg_attr(all(kani, feature = "stubs"), kani::stub(<&twofloat::TwoFloat as core::ops::Sub<&f64>>::sub, crate::uf::havoc_tf64))]
 pub fn c14_exp_m1_total() {
     let x = valid_arg();
     let _ = x.exp_m1();
@@ -57,10 +57,10 @@ pub fn c14_exp_m1_total() {
 }
 
 //@ id=C14 tier=quick to=1800 cfg=std exh=1 stub=1 stubs="TwoFloat::exp, TwoFloat::ln -> havoc; &TwoFloat*&TwoFloat -> havoc" desc="powf's own logic never panics for ANY pair of valid arguments (exp/ln replaced by their no-panic contract)"
-#[cfg_attr(kani, kani::proof)]
-#[cfg_attr(kani, kani::stub(twofloat::TwoFloat::exp, crate::uf::havoc_unary))]
-#[cfg_attr(kani, kani::stub(twofloat::TwoFloat::ln, crate::uf::havoc_unary))]
-#[cfg_attr(kani, kani::stub(<&twofloat::TwoFloat as core::ops::Mul<&twofloat::TwoFloat>>::mul, crate::uf::havoc_tt))]
+#[cfg_attr(all(kani, feature = "stubs"), kani::proof)]
+#[cfg_attr(all(kani, feature = "stubs"), kani::stub(twofloat::TwoFloat::exp, crate::uf::havoc_unary))]
+#[cfg_attr(all(kani, feature = "stubs"), kani::stub(twofloat::TwoFloat::ln, crate::uf::havoc_unary))]
+#[cfg_attr(all(kani, feature = "stubs"), kani::stub(<&twofloat::TwoFloat as core::ops::Mul<&twofloat::TwoFloat>>::mul, crate::uf::havoc_tt))]
 pub fn c14_powf_total() {
     let x = valid_arg();
     let y = valid_arg();
@@ -124,10 +124,10 @@ uf_tf!(T_EXP, 2, fn uf_exp<>(x: TwoFloat) -> TwoFloat, key = k2(x));
 uf_tf!(T_LN, 2, fn uf_ln<>(x: TwoFloat) -> TwoFloat, key = k2(x));
 
 //@ id=C14 tier=quick to=1800 cfg=std exh=1 stub=1 stubs="TwoFloat::exp, TwoFloat::ln, &TwoFloat*&TwoFloat -> recording UFs" desc="powf logic for ALL valid x, y: x^0 == 1 (x != 0), 0^y == 0 (y > 0), 0^0 invalid; x > 0: result is exp(y * ln(x)); x < 0: non-integer y invalid, integer y gives +-exp(y * ln|x|) with ln applied to |x| (which sign: see level_note, f64 % is mis-modelled by the engine)"
-#[cfg_attr(kani, kani::proof)]
-#[cfg_attr(kani, kani::stub(twofloat::TwoFloat::exp, uf_exp))]
-#[cfg_attr(kani, kani::stub(twofloat::TwoFloat::ln, uf_ln))]
-#[cfg_attr(kani, kani::stub(<&twofloat::TwoFloat as core::ops::Mul<&twofloat::TwoFloat>>::mul, crate::uf::uf_mul_tt))]
+#[cfg_attr(all(kani, feature = "stubs"), kani::proof)]
+#[cfg_attr(all(kani, feature = "stubs"), kani::stub(twofloat::TwoFloat::exp, uf_exp))]
+#[cfg_attr(all(kani, feature = "stubs"), kani::stub(twofloat::TwoFloat::ln, uf_ln))]
+#[cfg_attr(all(kani, feature = "stubs"), kani::stub(<&twofloat::TwoFloat as core::ops::Mul<&twofloat::TwoFloat>>::mul, crate::uf::uf_mul_tt))]
 pub fn c14_powf_logic() {
     let x = any_valid();
     let y = any_valid();
